@@ -28,6 +28,15 @@ T = Rat.var('t')
 def coef(v):
     """Coefficient of the 1-d vector."""
     lf = v.val if isinstance(v, Vec) else v
+    # pointwise products of the basis vector with itself: e.e = e on the line
+    if any(isinstance(k, tuple) and k and k[0] == 'mul' and all(
+            f == E for f in k[1]) for k in lf):
+        red = {}
+        for k, c in lf.items():
+            kk = E if (isinstance(k, tuple) and k and k[0] == 'mul' and all(
+                f == E for f in k[1])) else k
+            red[kk] = red.get(kk, vs.ZERO) + c
+        lf = red
     extra = [k for k in lf if k != E]
     if extra:
         raise Undecided('vector outside the 1-d model: %s' % vs.show(lf))
